@@ -25,7 +25,9 @@ import (
 
 	gojson "github.com/go-jose/go-jose/v3/json"
 
+	"github.com/hyperledger/aries-framework-go/component/kmscrypto/crypto/tinkcrypto"
 	"github.com/hyperledger/aries-framework-go/component/kmscrypto/doc/jose"
+	"github.com/hyperledger/aries-framework-go/component/kmscrypto/kms/localkms"
 	"github.com/hyperledger/aries-framework-go/component/models/jwt"
 	"github.com/hyperledger/aries-framework-go/component/models/jwt/didsignjwt"
 	"github.com/hyperledger/aries-framework-go/component/models/signature/verifier"
@@ -64,6 +66,7 @@ type world struct {
 	docs            map[string]*docDesc // the harness's own description of the served documents
 	shared          jose.SignatureVerifier // when set: ONE jwt.NewVerifier instance used for every "basic" case
 	sharedSingle    map[string]jose.SignatureVerifier
+	vcrypto         cryptoVerifier // the verifying party's own crypto service (for the DefaultSigningInputVerifier configuration)
 	byRef           map[string]*key // "did:ex:a#ed" -> key
 	vdr             *vdrStub
 	fetch           func(d, f string) (*verifier.PublicKey, error)
@@ -190,6 +193,19 @@ type observed struct {
 	Payload string `json:"payload,omitempty"`
 }
 
+type cryptoVerifier interface {
+	Verify(signature, msg []byte, kh interface{}) error
+}
+
+// cfgKey returns the key a single-key verifier configuration names ("single:", "fixed:", "default:").
+func (w *world) cfgKey(cfg string) *key {
+	if i := strings.Index(cfg, ":"); i > 0 {
+		return w.byRef[cfg[i+1:]]
+	}
+
+	return nil
+}
+
 // execute runs the case on the real implementation.
 func (w *world) execute(c *Case) (o observed) {
 	var v jose.SignatureVerifier
@@ -207,6 +223,34 @@ func (w *world) execute(c *Case) (o observed) {
 		must(err)
 
 		v = sv
+	case strings.HasPrefix(c.Cfg, "fixed:"):
+		k := w.cfgKey(c.Cfg)
+
+		switch pub := k.pub.(type) {
+		case ed25519.PublicKey:
+			ev, err := jwt.NewEd25519Verifier(pub)
+			must(err)
+
+			v = ev
+		case *rsa.PublicKey:
+			v = jwt.NewRS256Verifier(pub)
+		}
+	case strings.HasPrefix(c.Cfg, "default:"):
+		// as pkg/didcomm middleware verifies from_prior: key handle from the verifier's KMS, crypto.Verify, alg not consulted
+		k := w.cfgKey(c.Cfg)
+		kh, err := localkms.PublicKeyBytesToHandle(k.kmsBytes, k.kt)
+		must(err)
+
+		if w.vcrypto == nil {
+			cr, err := tinkcrypto.New()
+			must(err)
+
+			w.vcrypto = cr
+		}
+
+		v = jose.DefaultSigningInputVerifier(func(_ jose.Headers, _, signingInput, signature []byte) error {
+			return w.vcrypto.Verify(signature, signingInput, kh)
+		})
 	default:
 		v = jwt.UnsecuredJWTVerifier()
 	}
@@ -262,6 +306,8 @@ func (w *world) execute(c *Case) (o observed) {
 	return observed{Outcome: "accept", Payload: string(payload)}
 }
 
+var famAlg = map[string]string{"FEd25519": "EdDSA", "FP256": "ES256", "FP384": "ES384", "FP521": "ES521", "FSecp256k1": "ES256K", "FRSA": "PS256"}
+
 // strictVerify is the oracle's own signature check (Go standard library only): is sig a valid signature under
 // alg (with the meaning published for that name) by key k over msg?
 func strictVerify(alg string, k *key, msg, sig []byte) bool {
@@ -288,7 +334,8 @@ func strictVerify(alg string, k *key, msg, sig []byte) bool {
 		}
 
 		var es struct{ R, S *big.Int }
-		if _, err := asn1.Unmarshal(sig, &es); err != nil {
+		rest, err := asn1.Unmarshal(sig, &es)
+		if err != nil || len(rest) != 0 || es.R == nil || es.S == nil {
 			return false
 		}
 
@@ -369,14 +416,37 @@ func (w *world) record(kind string, c *Case, o observed, withCoq bool, tr *hx.Tr
 		// the keys the token may legitimately be verified with (the oracle's own reading of the documents)
 		var cands []*key
 
-		if strings.HasPrefix(c.Cfg, "single:") {
-			cands = []*key{w.byRef[strings.TrimPrefix(c.Cfg, "single:")]}
+		if k := w.cfgKey(c.Cfg); k != nil {
+			cands = []*key{k}
 		} else if kid, isStr := hdr["kid"].(string); isStr {
 			if ps := strings.Split(kid, "#"); len(ps) >= 2 {
 				for _, m := range w.candidates(ps[0], ps[1]) {
 					cands = append(cands, m.k)
 				}
 			}
+		}
+
+		if strings.HasPrefix(c.Cfg, "default:") {
+			// jose.DefaultSigningInputVerifier: the wrapped function decides key and procedure (the key's own);
+			// the property still wants the signature to cover the received header bytes
+			k := cands[0]
+			ka := famAlg[k.fam]
+			canon, _ := gojson.Marshal(hdr)
+			canonMsg := append([]byte(b64.EncodeToString(canon)), received[len(parts[0]):]...)
+
+			switch {
+			case !hdrOK || len(sig) == 0:
+				rec.Oracle, rec.Sig = "fail", "accept-unsigned"
+			case strictVerify(ka, k, received, sig):
+			case strictVerify(ka, k, canonMsg, sig):
+				rec.Oracle, rec.Sig = "fail", "default-input-verifier-reserialized-header"
+				rec.Detail = "jose.DefaultSigningInputVerifier accepted a token whose received header bytes are not the signed ones (it verifies the re-marshalled header)"
+			default:
+				rec.Oracle, rec.Sig = "fail", "accept-invalid-signature"
+				rec.Detail = "DefaultSigningInputVerifier configuration accepted although the signature is valid neither for the received nor for the re-marshalled header"
+			}
+
+			break
 		}
 
 		famOK, recvOK, rebuiltOK := false, false, false
@@ -469,6 +539,11 @@ func (w *world) coqCase(c *Case, o observed, hdr jose.Headers, hdrOK bool, paylo
 		cfg = "(VSingle " + coqKey(w.byRef[strings.TrimPrefix(c.Cfg, "single:")], true) + ")"
 	case c.Cfg == "unsecured":
 		cfg = "VUnsecured"
+	case strings.HasPrefix(c.Cfg, "fixed:"):
+		k := w.cfgKey(c.Cfg)
+		cfg = fmt.Sprintf("(VFixed %q %s)", map[string]string{"FEd25519": "EdDSA", "FRSA": "RS256"}[k.fam], coqKey(k, false))
+	case strings.HasPrefix(c.Cfg, "default:"):
+		cfg = "(VDefault " + coqKey(w.cfgKey(c.Cfg), false) + ")"
 	}
 
 	det := "None"
@@ -490,7 +565,8 @@ func (w *world) coqCase(c *Case, o observed, hdr jose.Headers, hdrOK bool, paylo
 			f[i] = s
 		}
 
-		hv = fmt.Sprintf("(Some {| h_alg := %s; h_kid := %s; h_b64 := %s; h_typ := %s; h_cty := %s |})", f[0], f[1], f[2], f[3], f[4])
+		canon, _ := gojson.Marshal(hdr)
+		hv = fmt.Sprintf("(Some {| h_alg := %s; h_kid := %s; h_b64 := %s; h_typ := %s; h_cty := %s; h_canon := chars %s |})", f[0], f[1], f[2], f[3], f[4], str(string(canon)))
 	}
 
 	// the document the kid's DID resolves to, as the harness built it (NOT what the resolver answered)
@@ -1213,6 +1289,134 @@ func main() {
 		w.sharedSingle = nil
 	}
 
+	// the single-key verifiers of jwt_support.go (alg fixed) and jose.DefaultSigningInputVerifier configured as the
+	// didcomm middleware does (key handle in the verifier's KMS, crypto.Verify, alg not consulted)
+	{
+		r := rng.Fork(16000)
+		n := 0
+
+		type kc struct {
+			ref, cfg string
+		}
+
+		var list []kc
+
+		for _, k := range append(append([]*key{}, w.party...), w.attacker...) {
+			d := didA
+			if k.origin == "bare" {
+				d = didM
+			}
+
+			ref := d + "#" + k.name
+			if (k.fam == "FEd25519" || k.fam == "FRSA") && (k.hproc == "" || k.hproc == "PEd" || k.hproc == "PPkcs") {
+				list = append(list, kc{ref, "fixed:" + ref})
+			}
+
+			if k.kmsBytes != nil {
+				list = append(list, kc{ref, "default:" + ref})
+			}
+		}
+
+		for _, x := range list {
+			k := w.byRef[x.ref]
+			if k.fam == "FRSA" && k.hon == nil {
+				continue // bare RSA keys sign PS256
+			}
+
+			for style := 0; style < 2; style++ {
+				extra := [][2]string{}
+				if n%2 == 0 {
+					extra = append(extra, [2]string{"typ", `"JWT"`})
+				}
+
+				b := w.sign(x.ref, true, extra, claimsJSON(r, 1+r.Intn(2)), style, false, false)
+				if k.hon == nil && k.fam != "FEd25519" && style == 1 {
+					continue // DER signatures do not fit an r||s key handle
+				}
+
+				entry := []string{"jws", "jwt", "jwt-ignore"}[n%3]
+				n++
+				note := "honest"
+
+				if style == 1 {
+					note = "honest-noncanonical-header"
+				}
+
+				c := b.mk(entry, x.cfg, note)
+				w.run("singlekey", c, true, tr)
+				w.semantic(r, b, c, tr)
+
+				if style == 0 && (thorough || (n+w.seed)%3 == 0) {
+					w.positional(r, b, c, 2, 4, tr)
+				}
+
+				// detached
+				db := w.sign(x.ref, true, nil, claimsJSON(r, 1), 0, true, false)
+				dc := db.mk(entry, x.cfg, "honest-dettrue-rawfalse")
+				w.run("singlekey", dc, true, tr)
+
+				d2 := *dc
+				d2.Det = db.det + " "
+				w.run("singlekey", with(&d2, db.tok(), "subst-detached"), true, tr)
+			}
+		}
+	}
+
+	// signature ENCODINGS: length changes, leading/trailing bytes, S+L (Ed25519), s+N (RSA), (r, n-s), r||s <-> DER,
+	// zero-extended halves (ECDSA).  The bytes are a signature exactly when they verify in a well-formed encoding.
+	{
+		r := rng.Fork(17000)
+		n := 0
+
+		for _, k := range w.party {
+			ref := didA + "#" + k.name
+
+			for _, jwkForm := range []bool{false, true} {
+				b := w.sign(ref, jwkForm, nil, claimsJSON(r, 1), 0, false, false)
+				sig, _ := b64.DecodeString(b.sseg)
+
+				for _, v := range sigVariants(k, sig) {
+					seg := b64.EncodeToString(v.bytes)
+					c := b.mk([]string{"jws", "jwt", "did"}[n%3], "basic", "sigenc-"+v.name)
+					n++
+					c.Tok, c.Sig0 = b.hseg+"."+b.pseg+"."+seg, seg
+
+					if !strictVerify(k.alg, k, []byte(b.msg), v.bytes) {
+						c.SigKey, c.SigProc, c.SigMsg = "", "", ""
+					}
+
+					w.run("sigenc", c, true, tr)
+
+					if k.fam == "FEd25519" || (k.fam == "FRSA" && k.hproc == "PPkcs") {
+						f := *c
+						f.Entry, f.Cfg = "jwt", "fixed:"+ref
+						w.run("sigenc", &f, true, tr)
+					}
+				}
+			}
+		}
+	}
+
+	// kid FORMS: honestly signed tokens whose kid is a relative reference, carries a query, a path, parameters,
+	// percent-encoding, other letter case or white space: only an absolute did:...#fragment naming a served DID resolves
+	{
+		r := rng.Fork(18000)
+		n := 0
+
+		for _, name := range []string{"ed", "p256"} {
+			for _, kid := range []string{"#" + name + "-j", didA + "?versionId=1#" + name + "-j", didA + "/path#" + name + "-j",
+				didA + ";service=x#" + name + "-j", didA + "#" + strings.Replace(name, "d", "%64", 1) + "-j", didA + "#" + name + "%2Dj",
+				"DID:EX:A#" + name + "-j", didA + "#" + strings.ToUpper(name) + "-J", " " + didA + "#" + name + "-j", didA + "#" + name + "-j ",
+				didA + "#" + name + "-j?x=1", didA + " #" + name + "-j", "did:ex:A#" + name + "-j", didA + "#" + name + "-j"} {
+				w.kidOverride = kid
+				b := w.sign(didA+"#"+name, true, nil, claimsJSON(r, 1), r.Intn(6), false, false)
+				w.kidOverride = ""
+				w.run("kidform", b.mk([]string{"did", "jws", "jwt"}[n%3], "basic", "kid-form"), true, tr)
+				n++
+			}
+		}
+	}
+
 	// CONCURRENT use of verifiers
 	w.concurrent(rng.Fork(15000), thorough, tr)
 
@@ -1326,6 +1530,11 @@ func (w *world) recipe(name string) []*Case {
 
 		return []*Case{{Entry: "did", Cfg: "basic", Tok: msg + "." + sseg, Sig0: sseg, SigKey: didM + "#" + k.name,
 			SigProc: "PEc H256", SigMsg: msg, Note: "cross:p1363"}}
+	case "default-verifier-reserialized-header":
+		b := w.sign(didA+"#ed", true, nil, claimsJSON(r, 1), 0, false, false)
+		c := b.mk("jws", "default:"+didA+"#ed", "honest")
+
+		return []*Case{c, with(c, reheader(b, strings.Replace(b.hdr, ",", " , ", 1)), "reserialized-header")}
 	case "kid-without-fragment":
 		b := w.sign(didA+"#ed", true, nil, claimsJSON(r, 1), 0, false, false)
 		c := b.mk("jwt", "basic", "honest")
@@ -1352,4 +1561,88 @@ func (w *world) recipe(name string) []*Case {
 	}
 
 	return nil
+}
+
+type sigVariant struct {
+	name  string
+	bytes []byte
+}
+
+var (
+	edL, _ = new(big.Int).SetString("7237005577332262213973186563042994240857116359379907606001950938285454250989", 10)
+)
+
+func cat(bs ...[]byte) []byte {
+	var out []byte
+	for _, b := range bs {
+		out = append(out, b...)
+	}
+
+	return out
+}
+
+// sigVariants re-encodes / perturbs a signature in the ways specific to its scheme.
+func sigVariants(k *key, sig []byte) []sigVariant {
+	out := []sigVariant{
+		{"lead-zero", cat([]byte{0}, sig)}, {"trail-zero", cat(sig, []byte{0})},
+		{"drop-last", sig[:len(sig)-1]}, {"drop-first", sig[1:]}, {"doubled", cat(sig, sig)},
+	}
+
+	switch pub := k.pub.(type) {
+	case ed25519.PublicKey:
+		// S + L: the same scalar modulo the group order, little endian
+		s := make([]byte, 32)
+		for i := 0; i < 32; i++ {
+			s[i] = sig[63-i]
+		}
+
+		v := new(big.Int).Add(new(big.Int).SetBytes(s), edL)
+		if v.BitLen() <= 256 {
+			be := v.FillBytes(make([]byte, 32))
+			le := make([]byte, 32)
+
+			for i := 0; i < 32; i++ {
+				le[i] = be[31-i]
+			}
+
+			out = append(out, sigVariant{"ed-s-plus-l", cat(sig[:32], le)})
+		}
+	case *rsa.PublicKey:
+		v := new(big.Int).Add(new(big.Int).SetBytes(sig), pub.N)
+		if v.BitLen() <= 8*len(sig) {
+			out = append(out, sigVariant{"rsa-s-plus-n", v.FillBytes(make([]byte, len(sig)))})
+		}
+
+		out = append(out, sigVariant{"rsa-s-plus-n-long", v.Bytes()})
+	case *ecdsa.PublicKey:
+		n := (pub.Curve.Params().BitSize + 7) / 8
+
+		var rr, ss *big.Int
+
+		if len(sig) == 2*n {
+			rr, ss = new(big.Int).SetBytes(sig[:n]), new(big.Int).SetBytes(sig[n:])
+		} else {
+			var es struct{ R, S *big.Int }
+			if _, err := asn1.Unmarshal(sig, &es); err != nil {
+				return out
+			}
+
+			rr, ss = es.R, es.S
+		}
+
+		p1363 := func(a, b *big.Int, sz int) []byte { return cat(a.FillBytes(make([]byte, sz)), b.FillBytes(make([]byte, sz))) }
+		der := func(a, b *big.Int) []byte {
+			d, err := asn1.Marshal(struct{ R, S *big.Int }{a, b})
+			must(err)
+
+			return d
+		}
+		ns := new(big.Int).Sub(pub.Curve.Params().N, ss)
+		out = append(out, sigVariant{"ec-as-p1363", p1363(rr, ss, n)}, sigVariant{"ec-as-der", der(rr, ss)},
+			sigVariant{"ec-n-minus-s", p1363(rr, ns, n)}, sigVariant{"ec-n-minus-s-der", der(rr, ns)},
+			sigVariant{"ec-zero-extended", p1363(rr, ss, n+1)}, sigVariant{"ec-der-trailing", cat(der(rr, ss), []byte{0, 0})},
+			sigVariant{"ec-s-plus-n", p1363(rr, new(big.Int).Add(ss, pub.Curve.Params().N), n+1)})
+	}
+
+	return out
 }
